@@ -13,6 +13,16 @@ Definition att_name_ok (n : att_name) : Prop :=
 Definition p_attribute_ok (a : attribute) : Prop :=
   att_name_ok (at_name a) /\ exists q, (q = 34 \/ q = 39) /\ av_ok q false (at_value a).
 
+Definition att_name_canon (n : att_name) : Prop :=
+  match n with
+  | AnQName (Prefixed p _) => p <> s_xmlns
+  | AnQName (Unprefixed x) => x <> s_xmlns
+  | _ => True
+  end.
+
+(** the invariant of an attribute as the parser returns it *)
+Definition p_attribute_ok' (a : attribute) : Prop := p_attribute_ok a /\ att_name_canon (at_name a).
+
 Definition text_opt_ok (o : option str) : Prop := match o with Some t => text_ok t | None => True end.
 
 Section PE.
@@ -32,7 +42,7 @@ End PE.
 Fixpoint p_element_ok (e : element) : Prop :=
   match e with
   | Element n attrs c =>
-    qname_ok n /\ Forall p_attribute_ok attrs
+    qname_ok n /\ Forall p_attribute_ok' attrs
     /\ match c with None => True | Some (h, cells) => text_opt_ok h /\ cells_ok p_element_ok cells end
   end.
 
@@ -51,27 +61,95 @@ Proof.
   - match goal with H : succ _ (NT nt_ns_att_name) _ _ _ |- _ => apply inv_ns_att_name in H; destruct H as [n [En [Hn _]]] end.
     match goal with H : succ _ (NT nt_att_value) _ _ _ |- _ => apply inv_att_value in H; destruct H as [q [l [Hq [El Hl]]]] end.
     exists (Attribute n l). split; [cbn [eval_tree]; rewrite En, El; apply al_attribute|]. split; [exact Hn|eauto].
-  - match goal with H : succ _ (NT nt_qname) _ _ _ |- _ => apply inv_qname in H; destruct H as [qn [-> Hqn]] end.
+  - match goal with H : succ _ (NT nt_qname) _ _ _ |- _ => apply inv_qname in H; destruct H as [qn [-> [Hqn _]]] end.
     match goal with H : succ _ (NT nt_att_value) _ _ _ |- _ => apply inv_att_value in H; destruct H as [q [l [Hq [El Hl]]]] end.
     exists (Attribute (AnQName qn) l). split; [cbn [eval_tree]; rewrite eval_tree_qname, El; apply al_attribute|]. split; [exact Hqn|eauto].
 Qed.
 
-Lemma inv_attrs_many s ts r : SM attr_item s ts r -> exists l, map eval_tree ts = map VAttribute l /\ Forall p_attribute_ok l.
+(** the parser never returns `xmlns` / `xmlns:p` as a QName attribute name: the [ns_att_name]
+    alternative of [attribute] is tried first (this is the one place where the ORDER of a choice
+    matters for the converse direction: argued on [denote] itself) *)
+Lemma ns_alt_parses (q : qname) (r1 : str) t2 r :
+  qname_ok q -> stops (eval (is_name_char_except [58])) r1 ->
+  match q with Prefixed p _ => p = s_xmlns | Unprefixed x => x = s_xmlns end ->
+  parses G_xml (SeqR (NT nt_eq) (NT nt_att_value)) r1 t2 r ->
+  exists t, parses G_xml (Seq (NT nt_ns_att_name) (SeqR (NT nt_eq) (NT nt_att_value))) (d_qname q ++ r1) t r.
+Proof.
+  intros Hq Hr1 Hns Hp. destruct q as [p l|x]; cbn [d_qname qname_ok] in *; subst.
+  - destruct Hq as [_ Hl]. eexists. rewrite <- app_assoc. eapply parses_seq; [|exact Hp].
+    apply parses_nt. rewrite body_ns_att_name. apply parses_alt_l. apply parses_map. unfold s_xmlns. cbn [app].
+    eapply parses_seqr; [apply parses_tag_lit; reflexivity|]. apply parses_ncname; assumption.
+  - eexists. eapply parses_seq; [|exact Hp].
+    apply parses_nt. rewrite body_ns_att_name.
+    (* `xmlns` followed by something that is not ':' (the NCName stopped there) *)
+    apply parses_alt_r.
+    + apply fails_map. apply fails_seqr_l. apply fails_tag. unfold s_xmlns. cbn [app prefix]. rewrite !N.eqb_refl.
+      destruct r1 as [|c r1']; [reflexivity|]. cbn [stops] in Hr1.
+      destruct (N.eqb_spec 58 c) as [<-|]; [|reflexivity]. exfalso.
+      eapply parses_fails_false; [exact Hp|]. apply fails_seqr_l. apply fails_nt. rewrite body_eq.
+      eapply fails_seqr_r; [apply parses_chars0_nil; exact eq_refl|]. apply fails_seql_l. apply fails_tag. reflexivity.
+    + apply parses_map. apply parses_tag.
+Qed.
+
+Lemma qname_ns_dec (q : qname) :
+  match q with Prefixed p _ => p = s_xmlns | Unprefixed x => x = s_xmlns end \/ att_name_canon (AnQName q).
+Proof.
+  destruct q as [p l|x]; cbn [att_name_canon].
+  - destruct (str_eqb p s_xmlns) eqn:E; [left; apply str_eqb_eq; exact E|right; intros ->; rewrite str_eqb_refl in E; discriminate].
+  - destruct (str_eqb x s_xmlns) eqn:E; [left; apply str_eqb_eq; exact E|right; intros ->; rewrite str_eqb_refl in E; discriminate].
+Qed.
+
+Lemma inv_attribute_canon s t r : S (NT nt_attribute) s t r ->
+  exists a, eval_tree t = VAttribute a /\ p_attribute_ok a /\ att_name_canon (at_name a).
+Proof.
+  intros H. inv H. match goal with H : exists f, _ |- _ => destruct H as [f Hd] end.
+  destruct f as [|f]; [rewrite (denote_eq G_xml) in Hd; discriminate Hd|].
+  rewrite (denote_eq G_xml) in Hd. cbn [den1 callnt] in Hd. rewrite body_attribute in Hd.
+  rewrite (denote_eq G_xml) in Hd. cbn [den1] in Hd.
+  match type of Hd with bind ?x _ = _ => destruct x as [[t0 r0]| |] eqn:E; try discriminate Hd end.
+  cbn [bind fst snd] in Hd. injection Hd as <- <-.
+  rewrite (denote_eq G_xml) in E. cbn [den1] in E.
+  match type of E with match ?x with _ => _ end = _ => destruct x as [[tA rA]| |] eqn:EA; try discriminate E end.
+  - (* the namespace alternative *)
+    injection E as <- <-. pose proof (den_S _ _ _ _ _ EA eq_refl) as HA. invs.
+    match goal with H : succ _ (NT nt_ns_att_name) _ _ _ |- _ => apply inv_ns_att_name in H; destruct H as [n [En [Hn Hform]]] end.
+    match goal with H : succ _ (NT nt_att_value) _ _ _ |- _ => apply inv_att_value in H; destruct H as [q [l [Hq [El Hl]]]] end.
+    exists (Attribute n l). split; [cbn [eval_tree]; rewrite En, El; apply al_attribute|]. split; [split; [exact Hn|eauto]|].
+    cbn [at_name]. destruct Hform as [->|[x ->]]; exact I.
+  - (* the QName alternative, taken because the first one FAILED *)
+    rewrite (denote_eq G_xml) in E. cbn [den1] in E.
+    match type of E with bind ?x _ = _ => destruct x as [[t1 r1]| |] eqn:E1; try discriminate E end.
+    cbn [bind fst snd] in E.
+    match type of E with bind ?x _ = _ => destruct x as [[t2 r2]| |] eqn:E2; try discriminate E end.
+    cbn [bind fst snd] in E. injection E as <- <-.
+    pose proof (den_S _ _ _ _ _ E1 eq_refl) as H1'.
+    pose proof (den_S _ _ _ _ _ E2 eq_refl) as H2'.
+    pose proof (parses_of_denote G_xml _ _ _ _ _ E2) as P2. invs.
+    match goal with H : succ _ (NT nt_qname) _ _ _ |- _ => apply inv_qname in H; destruct H as [qn [-> [Hqn [Es Hst]]]] end.
+    match goal with H : succ _ (NT nt_att_value) _ _ _ |- _ => apply inv_att_value in H; destruct H as [q [l [Hq [El Hl]]]] end.
+    exists (Attribute (AnQName qn) l). split; [cbn [eval_tree]; rewrite eval_tree_qname, El; apply al_attribute|].
+    split; [split; [exact Hqn|eauto]|]. cbn [at_name].
+    destruct (qname_ns_dec qn) as [Hns|Hc]; [|exact Hc]. exfalso.
+    destruct (ns_alt_parses qn _ _ _ Hqn Hst Hns P2) as [tx Px]. rewrite <- Es in Px.
+    pose proof (parses_at G_xml _ _ _ _ f Px) as Hx. rewrite EA in Hx. specialize (Hx ltac:(discriminate)). discriminate Hx.
+Qed.
+
+Lemma inv_attrs_many s ts r : SM attr_item s ts r -> exists l, map eval_tree ts = map VAttribute l /\ Forall p_attribute_ok' l.
 Proof.
   intros H. remember attr_item as e eqn:Ee. induction H as [e s|e s t r1 ts r Hs Hlt Hm IH]; subst e.
   - exists []. split; [reflexivity|constructor].
   - destruct (IH eq_refl) as [l [El Hl]]. unfold attr_item in Hs. invs.
-    match goal with H : succ _ (NT nt_attribute) _ _ _ |- _ => apply inv_attribute in H; destruct H as [at0 [Ea Ha]] end.
-    exists (at0 :: l). split; [cbn [map]; rewrite Ea, El; reflexivity|constructor; assumption].
+    match goal with H : succ _ (NT nt_attribute) _ _ _ |- _ => apply inv_attribute_canon in H; destruct H as [at0 [Ea [Ha Hcn]]] end.
+    exists (at0 :: l). split; [cbn [map]; rewrite Ea, El; reflexivity|constructor; [split; assumption|assumption]].
 Qed.
 
 (** `<name attrs` of either kind of tag *)
 Lemma inv_tag_open s t r : S (Seq (NT nt_qname) (Many0 attr_item)) s t r ->
-  exists q l, eval_tree t = VPair (VQName q) (VList (map VAttribute l)) /\ qname_ok q /\ Forall p_attribute_ok l
+  exists q l, eval_tree t = VPair (VQName q) (VList (map VAttribute l)) /\ qname_ok q /\ Forall p_attribute_ok' l
               /\ exists ta, t = TPair (tree_qname q) ta.
 Proof.
   intros H. invs.
-  match goal with H : succ _ (NT nt_qname) _ _ _ |- _ => apply inv_qname in H; destruct H as [q [-> Hq]] end.
+  match goal with H : succ _ (NT nt_qname) _ _ _ |- _ => apply inv_qname in H; destruct H as [q [-> [Hq _]]] end.
   match goal with H : succ_many _ attr_item _ _ _ |- _ => apply inv_attrs_many in H; destruct H as [l [El Hl]] end.
   exists q, l. split; [cbn [eval_tree]; rewrite eval_tree_qname, El; reflexivity|]. repeat split; try assumption. eauto.
 Qed.
